@@ -379,10 +379,12 @@ def _run_scenario(sc, res, rng, base, env):
                 res.count("crash_states_with_stale_lock_files")
             if backend == "vdir" and op in ("create", "replace", "delete") and variant in ("as-is", "killed-right-after") and n <= 8:
                 second_crash(backend, work, base, op, bodies, st, res, tag, prior, where, variant, sc, k)
-            if (k + len(variant)) % 2 == 0:
-                follow_up(backend, work, op, bodies, st, res, tag, prior, where, variant, sc, k)
-            else:
-                retry_same(backend, work, op, bodies, new_state, res, tag, prior, where, variant, sc, k)
+            # both continuations on every crash state (each on its own copy): another write to the target, and the same write again
+            wb = os.path.join(base, "work-b")
+            cp_a(work, wb)
+            follow_up(backend, work, op, bodies, st, res, tag, prior, where, variant, sc, k)
+            retry_same(backend, wb, op, bodies, new_state, res, tag, prior, where, variant, sc, k)
+            common.rmtree(wb)
     # ---- the operation fails with an I/O error instead of dying: it is not acknowledged, so nothing may have changed
     for lim in ((0, 40, 300, 1500) if backend == "vdir" or prior <= 1 else (0, 300)):
         common.rmtree(work)
